@@ -389,3 +389,206 @@ def gen_iter(seed, idbase=0, nb=("BucketsSize", 128), kt="bytes", rounds=4, name
     s.op("map", h=1, db=0, name="m", kt=kt)
     iters(2)
     return s
+
+
+def _mk_keys(s, rng, kt, count, lens=None):
+    if kt in ("u64", "i64", "vu64"):
+        return typed_keys(s, rng, kt, count)
+    out = []
+    while len(out) < count:
+        k = s.key(rng.choice(lens or [1, 4, 8, 10, 11, 16, 30, 100]))
+        if k:
+            out.append(k)
+    return out
+
+
+REOPEN_PARAMS = [None, {"buckets": ["BucketsSize", 1]}, {"buckets": ["BucketsSize", 1024]}, {"buckets": ["Capacity", 4]},
+                 {"buckets": ["Capacity", 1000]}, {"buckets": ["Default"]},
+                 {"buckets": ["BucketsSize", 16], "key_buf": ["Size", 0], "val_buf": ["Size", 262144], "htx_buf": ["Auto"]},
+                 {"key_buf": ["Auto"], "val_buf": ["PerMille", 1000], "htx_buf": ["Size", 1048576]}]
+
+
+def gen_reopen(seed, idbase=0, nops=300, nkeys=40, nb=("BucketsSize", 64), kt="bytes", closes=8, name="reopen"):
+    """C02: clean close and reopen at random points (also right after deletes / overwrites), with
+    parameters drawn independently of the creation parameters, in-process and in a new process."""
+    rng = random.Random(seed)
+    s = Script(idbase, design=False, name=name)
+    s.meta.update(kind="reopen", seed=seed, nb=list(nb), kt=kt)
+    keys = _mk_keys(s, rng, kt, nkeys)
+    vids = [s.newval(x) for x in rng.sample(SMALL_VALS, 6) + rng.sample(LARGE_VALS, 3) + [16384, 140000]]
+    s.op("open_db", db=0, dir="d")
+    s.op("map", h=1, db=0, name="m", kt=kt, params={"buckets": list(nb)})
+    close_at = sorted(rng.sample(range(5, nops), closes))
+    for i in range(nops):
+        r = rng.random()
+        k = rng.choice(keys)
+        if r < 0.5:
+            s.op("put", h=1, k=k, v=rng.choice(vids))
+        elif r < 0.75:
+            s.op("del", h=1, k=k)
+        elif r < 0.9:
+            s.op("get", h=1, k=k)
+        else:
+            s.op("len", h=1)
+        if i in close_at:
+            # an update right before the close half of the time
+            if rng.random() < 0.5:
+                s.op(rng.choice(["put", "del"]), h=1, k=rng.choice(keys), **({} if False else {}))
+                if s.ops[-1]["op"] == "put":
+                    s.ops[-1]["v"] = rng.choice(vids)
+            how = rng.choice(["drop_all", "new_process"])
+            s.op(how)
+            s.op("decode", dir="d", name="m", native=True)
+            if rng.random() < 0.4:
+                s.op("child_dump", dir="d", name="m", kt=kt, params=rng.choice(REOPEN_PARAMS))
+            s.op("open_db", db=0, dir="d")
+            s.op("map", h=1, db=0, name="m", kt=kt, params=rng.choice(REOPEN_PARAMS))
+            s.op("dump", h=1)
+            s.op("iter", h=1, flavour=rng.choice(FLAVOURS))
+    s.op("new_process")
+    s.op("decode", dir="d", name="m", native=True)
+    s.op("child_dump", dir="d", name="m", kt=kt, params=rng.choice(REOPEN_PARAMS))
+    return s
+
+
+def gen_sync(seed, idbase=0, nops=160, nmaps=2, kill=False, name="sync"):
+    """C03: every successful flush / sync_data / sync_all (map level and database level) is a crash
+    point: the directory is copied while all handles are alive and the copy is opened in another
+    process; with kill=True the writer is SIGKILLed right after a sync returned."""
+    rng = random.Random(seed)
+    s = Script(idbase, design=False, name=name)
+    s.meta.update(kind="sync", seed=seed, kill=kill)
+    kts = [rng.choice(KTS) for _ in range(nmaps)]
+    s.op("open_db", db=0, dir="d")
+    maps = []
+    for i, kt in enumerate(kts):
+        h = i + 1
+        nb = rng.choice([["BucketsSize", 8], ["BucketsSize", 64], ["Capacity", 100], ["BucketsSize", 1]])
+        s.op("map", h=h, db=0, name="m%d" % i, kt=kt, params={"buckets": nb})
+        keys = _mk_keys(s, rng, kt, 12)
+        maps.append(dict(h=h, name="m%d" % i, kt=kt, keys=keys))
+    # values in two lengths per size class, so that overwrites often stay in place
+    vids = [s.newval(x) for x in (3, 5, 9, 20, 21, 100, 101, 1100, 1101, 5000, 0)]
+    snap = 0
+
+    def snapshot(which):
+        nonlocal snap
+        snap += 1
+        d = "snap%d" % snap
+        s.op("copy_dir", **{"from": "d", "to": d})
+        for m in which:
+            s.op("child_dump", dir=d, name=m["name"], kt=m["kt"], **{"as": "C03.snapshot"})
+        s.op("rm_dir", dir=d)
+
+    # a map that was only created: flush, snapshot -> valid empty map
+    m0 = rng.choice(maps)
+    s.op(rng.choice(["flush", "sync_all", "sync_data"]), h=m0["h"])
+    snapshot([m0])
+    kill_at = rng.randrange(nops // 2, nops) if kill else -1
+    for i in range(nops):
+        m = rng.choice(maps)
+        r = rng.random()
+        k = rng.choice(m["keys"])
+        if r < 0.55:
+            s.op("put", h=m["h"], k=k, v=rng.choice(vids))
+        elif r < 0.72:
+            s.op("del", h=m["h"], k=k)
+        elif r < 0.80:
+            s.op("get", h=m["h"], k=k)
+        else:
+            if rng.random() < 0.7:
+                s.op(rng.choice(["flush", "sync_all", "sync_data"]), h=m["h"])
+                snapshot([m])
+            else:
+                s.op(rng.choice(["db_sync_all", "db_sync_data"]), db=0)
+                snapshot(maps)
+            # often an in-place overwrite / delete and an immediate second sync
+            if rng.random() < 0.6:
+                k2 = rng.choice(m["keys"])
+                s.op(rng.choice(["put", "put", "del"]), h=m["h"], k=k2)
+                if s.ops[-1]["op"] == "put":
+                    s.ops[-1]["v"] = rng.choice(vids)
+                s.op(rng.choice(["flush", "sync_all", "sync_data"]), h=m["h"])
+                snapshot([m])
+        if i == kill_at:
+            s.op(rng.choice(["db_sync_all", "db_sync_data"]), db=0)
+            s.op("kill_here")
+            s.op("open_db", db=0, dir="d")
+            for mm in maps:
+                s.op("map", h=mm["h"], db=0, name=mm["name"], kt=mm["kt"], **{"as": "C03.snapshot"})
+                s.op("dump", h=mm["h"], **{"as": "C03.snapshot"})
+    s.op("new_process")
+    for mm in maps:
+        s.op("decode", dir="d", name=mm["name"], native=True)
+        s.op("child_dump", dir="d", name=mm["name"], kt=mm["kt"])
+    return s
+
+
+def gen_fault(seed, idbase=0, shape="val", threshold=0, syncop="flush", name="fault"):
+    """C16: the OS refuses writes beyond `threshold` bytes (RLIMIT_FSIZE) during one flush/sync; full
+    buffering, so only the flush writes.  Then: reads, lift, flush again, snapshot."""
+    rng = random.Random(seed)
+    s = Script(idbase, design=False, name=name)
+    s.meta.update(kind="fault", seed=seed, shape=shape, threshold=threshold, syncop=syncop)
+    full = {"key_buf": ["PerMille", 1000], "val_buf": ["PerMille", 1000], "htx_buf": ["PerMille", 1000]}
+    if shape == "val":
+        nb, klens, vlens, n1, n2 = ["BucketsSize", 16], [8, 10, 12], [3000, 5000, 20000, 70000], 6, 14
+    elif shape == "key":
+        nb, klens, vlens, n1, n2 = ["BucketsSize", 16], [3000, 9000, 20000, 60000], [3, 10, 20], 6, 14
+    else:
+        nb, klens, vlens, n1, n2 = ["BucketsSize", 32768], [8, 10, 12], [3, 10, 20, 100], 8, 24
+    params = dict(full, buckets=nb)
+    n = layout_buckets(nb)
+    s.op("open_db", db=0, dir="d")
+    s.op("map", h=1, db=0, name="m", kt="bytes", params=params)
+    keys = []
+    for _ in range(n1 + n2):
+        k = s.key(rng.choice(klens))
+        if k:
+            keys.append(k)
+    vids = [s.newval(x) for x in vlens] + [s.newval(x + 1) for x in vlens]
+    for k in keys[:n1]:
+        s.op("put", h=1, k=k, v=rng.choice(vids))
+    s.op("flush", h=1)
+    for k in keys[n1:]:
+        s.op("put", h=1, k=k, v=rng.choice(vids))
+    for k in rng.sample(keys[:n1], 3):
+        s.op(rng.choice(["put", "del"]), h=1, k=k)
+        if s.ops[-1]["op"] == "put":
+            s.ops[-1]["v"] = rng.choice(vids)
+    s.op("rlimit_fsize", bytes=threshold)
+    s.op(syncop, h=1)
+    s.op("rlimit_fsize")                       # lift
+    s.op("copy_dir", **{"from": "d", "to": "snapA"})
+    s.op("child_dump", dir="snapA", name="m", kt="bytes", **{"as": "C16.reported"})
+    s.op("rm_dir", dir="snapA")
+    s.op("dump", h=1, **{"as": "C16.view"})     # the in-memory view stays fully correct
+    s.op("iter", h=1, flavour="iter")
+    s.op(rng.choice(["flush", "sync_all", "sync_data"]), h=1)
+    s.op("copy_dir", **{"from": "d", "to": "snapB"})
+    s.op("child_dump", dir="snapB", name="m", kt="bytes", **{"as": "C16.recover"})
+    s.op("rm_dir", dir="snapB")
+    for k in rng.sample(keys, 4):
+        s.op("put", h=1, k=k, v=rng.choice(vids))
+    s.op("dump", h=1)
+    s.op("new_process")
+    s.op("decode", dir="d", name="m", native=True)
+    s.op("child_dump", dir="d", name="m", kt="bytes")
+    return s
+
+
+def fault_thresholds(shape, count, rng):
+    """distinct limits between 'nothing fits' and 'everything fits'"""
+    base = [0, 1, 127, 128, 129, 191, 192, 193, 200, 256, 131071, 131072, 131073, 262143, 262144, 262145]
+    if shape == "htx":
+        hl = 128 + 8 * 32768 + 32768 // 8
+        base += [hl - 1, hl, hl + 1, 128 + 8 * 32768 - 1, 128 + 8 * 32768, 128 + 8 * 32768 + 1]
+        top = hl + 4096
+    else:
+        top = 600000
+    grid = [rng.randrange(0, top) for _ in range(count)] + [rng.randrange(192, 20000) for _ in range(count // 2)]
+    out = []
+    for t in base + grid:
+        if t not in out:
+            out.append(t)
+    return out
